@@ -98,14 +98,22 @@ class Underflow(Exception):
     pass
 
 
-def step(op, imm, pc, stack):
+VOLATILE = {"mload", "sload", "balance", "extcodesize", "extcodehash", "returndatasize", "selfbalance", "msize", "gas",
+            "keccak256", "create", "create2", "call", "callcode", "staticcall", "delegatecall"}
+
+
+def step(op, imm, pc, stack, fresh=None):
     """one instruction on a concrete stack (top first).
-    returns ('next', stack) | ('halt',) | ('jump', dest, stack) | ('jumpi', dest, cond, stack)"""
+    returns ('next', stack) | ('halt',) | ('jump', dest, stack) | ('jumpi', dest, cond, stack)
+    fresh: optional callable giving the value of the next state-dependent read (an arbitrary oracle stream:
+    every read may return a different value, also for equal arguments)"""
     def need(k):
         if len(stack) < k:
             raise Underflow()
     if op in OPNAME:
         name = OPNAME[op]; k = ARITY[name]; need(k)
+        if fresh is not None and name in VOLATILE:
+            return ("next", [fresh()] + stack[k:])
         return ("next", [apply(name, stack[:k])] + stack[k:])
     if op in POPONLY:
         k = POPONLY[op]; need(k)
